@@ -9,6 +9,19 @@ namespace ccl::rslang {
 
 namespace {
 
+//! Words that ASCII lexer reads as operators and not as identifiers: card, bool, debool, red, pr{number}
+[[nodiscard]] bool IsAsciiKeyword(const std::string& word) {
+  static const std::unordered_set<std::string_view> keywords{ "card", "bool", "debool", "red" };
+  static constexpr std::string_view projection = "pr";
+  if (keywords.contains(word)) {
+    return true;
+  }
+  return size(word) > size(projection) &&
+    word.compare(0, size(projection), projection) == 0 &&
+    std::all_of(begin(word) + static_cast<ptrdiff_t>(size(projection)), end(word),
+                [](const unsigned char symbol) noexcept { return std::isdigit(symbol) != 0; });
+}
+
 // NOLINTBEGIN: ignore magic numbers
 std::string ConvertID(std::string_view id, const Syntax syntax) {
   static constexpr std::string_view substitutes = "abgdezhviklmnxoprsstqfcjw";
@@ -35,6 +48,9 @@ std::string ConvertID(std::string_view id, const Syntax syntax) {
         result += 'p';
       }
     }
+  }
+  if (IsAsciiKeyword(result)) { // Note: transliteration should remain an identifier for ASCII lexer
+    result += '_';
   }
   return result;
 }
